@@ -10,7 +10,7 @@ sys.path.insert(0, str(V))
 CHECKS = {
     "C04": dict(
         technique="explicit enumeration of all value multisets x k x orderings against real get_type/shrink_types (bounded exhaustive model checking, E1)",
-        text="Every multiset of 1..3 (thorough ..4) grammar values up to nesting depth 2 (3) x six size limits x every permutation/duplication ordering is run through the real inference and judged by a reference conformance oracle; a coverage statement over the stated alphabet, not a sample. Traces are also merged the way the pipeline collects them (as a set inside StubIndexBuilder).",
+        text="Every multiset of 1..3 (thorough ..4) grammar values up to nesting depth 2 (3) x six size limits x every permutation/duplication ordering is run through the real inference and judged by a reference conformance oracle; a coverage statement over the stated alphabet, not a sample. Traces are also merged the way the pipeline collects them (as a set inside StubIndexBuilder). Values whose class exists once per instance (mock objects) have a stage of their own.",
         note="Trusts the reference oracle mcheck/oracles/types.py and the value grammar (DESIGN section 3); values outside the grammar are out of reach.",
         ref="DESIGN.md section 4 C04",
     ),
@@ -58,19 +58,19 @@ CHECKS = {
     ),
     "C09": dict(
         technique="explicit-state BFS over store histories with every query in every state + choice-point exploration of a second connection at every SQLite VM step + the writer as a separate process paused at every VM step while this process acts (real inter-process file locks) + SIGKILL/abort at every VM step (and every mutating syscall) of a batch insert, against a Counter reference model",
-        text="Histories of add/reopen/open through 1..3 connections are explored breadth-first on a real database file and in every state every filter(m,p,n) of the alphabet and list_modules is compared with a reference model; a second connection reads/writes at every VM step of an insert; a forked writer is killed at every VM step (thorough: every mutating syscall via strace injection) and the file is inspected through an independent connection; every step is also aborted through the progress handler. A second BFS runs add / next-calendar-day / reopen over two stores that share one file but not a table (default table via make_store, custom table via the constructor; the clock of add is an explorer-owned seam), and a 1200-row batch is added whole after several prefixes. The writer is also run as a separate forked process that the explorer pauses at every VM step of its insert while this process reads or writes through its own connection.",
+        text="Histories of add/reopen/open through 1..3 connections are explored breadth-first on a real database file and in every state every filter(m,p,n) of the alphabet and list_modules is compared with a reference model; a second connection reads/writes at every VM step of an insert; a forked writer is killed at every VM step (thorough: every mutating syscall via strace injection) and the file is inspected through an independent connection; every step is also aborted through the progress handler. A second BFS runs add / next-calendar-day / reopen over two stores that share one file but not a table (default table via make_store, custom table via the constructor; the clock of add is an explorer-owned seam), and a 1200-row batch is added whole after several prefixes. The writer is also run as a separate forked process that the explorer pauses at every VM step of its insert while this process reads or writes through its own connection. Also a database file that already exists in the released layout.",
         note="Trusts SQLite's locking and journalling; 2..3 connections and 2 processes explored exhaustively, the '16 processes' end of the quantifier is covered by commutation of whole transactions only; process kill, not power loss.",
         ref="DESIGN.md section 4 C09",
     ),
     "C17": dict(
         technique="exhaustive enumeration of every library .py file (and symlinked / near-miss spellings) against an independent path oracle + explicit enumeration of filter-cache call histories + all 64 subset filters and a real `monkeytype run` (bounded exhaustive, E1/E3)",
-        text="Every .py file under the installed interpreter's three library roots (thorough: every code object really compiled from them), frozen/builtin code, synthetic file names, user files reached directly, through symlinks and through look-alike paths, allow-lists of 0..3 names, every ordered pair/triple of filter calls on equal code objects from files with different verdicts starting from a cleared cache, a real `monkeytype run` of a script (its functions are __main__; imported modules named main, m, a, _, __main__x ... are not), all 64 custom subset filters, and every pair of subset filters over nested tracing blocks.",
+        text="Every .py file under the installed interpreter's three library roots (thorough: every code object really compiled from them), frozen/builtin code, synthetic file names, user files reached directly, through symlinks and through look-alike paths, allow-lists of 0..3 names, every ordered pair/triple of filter calls on equal code objects from files with different verdicts starting from a cleared cache, a real `monkeytype run` of a script (its functions are __main__; imported modules named main, m, a, _, __main__x ... are not), all 64 custom subset filters, and every pair of subset filters over nested tracing blocks. Verdicts are also compared under other working directories and for functions that share a name.",
         note="Enumerates the file universe of this interpreter only; allow-list names are package/module names below the import root.",
         ref="DESIGN.md section 4 C17",
     ),
     "C10": dict(
         technique="explicit enumeration of stores (subsets of valid rows x subsets of 32 stale-row kinds x insertion orders) against the real CLI with a differential oracle (bounded exhaustive, E1+E4)",
-        text="Every subset of four valid rows combined with every subset of up to 2 (thorough 3) of 32 kinds of stale rows, in three insertion orders, is written directly into a database and run through stub / stub -v / stub module:qualname / apply; stdout, the applied file, the exit status and the exact count of skipped rows are compared with the run on the decodable rows alone.",
+        text="Every subset of four valid rows combined with every subset of up to 2 (thorough 3) of 32 kinds of stale rows, in three insertion orders, is written directly into a database and run through stub / stub -v / stub module:qualname / apply; stdout, the applied file, the exit status and the exact count of skipped rows are compared with the run on the decodable rows alone. Commands include stub --diff and the -v commands over a custom store whose thunks offer only to_trace().",
         note="Corrupt rows (invalid JSON, wrong arity) are outside the property's list; identical rows are one trace.",
         ref="DESIGN.md section 4 C10",
     ),
@@ -82,13 +82,13 @@ CHECKS = {
     ),
     "C18": dict(
         technique="stateless choice-point exploration (deviation-bounded) with the sampling RNG answered by the explorer: every answer vector for every program x rate, exact expectation instead of statistics (E2)",
-        text="The `random` module seen by monkeytype.tracing is replaced by an explorer-owned seam; for seven programs x six rates every answer vector over {0,1,N-1} is executed (complete up to 6 draws, otherwise all vectors within 3 deviations of always-sample and never-sample; every r in range(N) for a one-call program). Every logged trace must describe a real completed call exactly (ground truth from sys.monitoring), skipped calls leave no residue, rate None/1 traces everything, and the exact expected traced fraction lies within 25% of 1/N.",
+        text="The `random` module seen by monkeytype.tracing is replaced by an explorer-owned seam; for seven programs x six rates every answer vector over {0,1,N-1} is executed (complete up to 6 draws, otherwise all vectors within 3 deviations of always-sample and never-sample; every r in range(N) for a one-call program). Every logged trace must describe a real completed call exactly (ground truth from sys.monitoring), skipped calls leave no residue, rate None/1 traces everything, and the exact expected traced fraction lies within 25% of 1/N. A run whose draws are not per call (more draws than frame activations) is a violation at once.",
         note="Answers 1..N-1 are treated as one class (justified by the per-answer check); seam loss is detected by calibration; a private generator constructed with an explicit seed is not a choice point (the real seeded generator is handed out, so the no-draw oracle fires); the open finding is attributed per frame (draw i = i-th frame activation).",
         ref="DESIGN.md section 4 C18",
     ),
     "C03": dict(
         technique="exhaustive differential exploration (untraced vs traced run of every tripwire x position workload) with every fault set of size <= 2 injected into the logger, both block exits and both profiler configurations (E4 + E2 fault enumeration)",
-        text="For 16 tripwire kinds at 24 positions (incl. values on which type collection fails, returned / yielded / passed), every subset of at most two faults among {log#1, log#2, log#3, flush}, both exits of the traced block and with/without a pre-installed profiler, the workload is run untraced and traced; the complete observation record (journal of every user-level hook incl. finalisers, results, exceptions, stdout) must be identical, no MonkeyType exception may reach the program, the previous profiler must be back and flush must have run exactly once. In fresh interpreters `python prog.py` / `python -m prog` are compared with `monkeytype run prog.py` / `monkeytype run -m prog` (stdout, exit status; the program looks at sys.argv, __main__ and pickles its own class). The differential programs also print a digest of os.environ (own and a child's), cwd and umask.",
+        text="For 16 tripwire kinds at 24 positions (incl. values on which type collection fails, returned / yielded / passed), every subset of at most two faults among {log#1, log#2, log#3, flush}, both exits of the traced block and with/without a pre-installed profiler, the workload is run untraced and traced; the complete observation record (journal of every user-level hook incl. finalisers, results, exceptions, stdout) must be identical, no MonkeyType exception may reach the program, the previous profiler must be back and flush must have run exactly once. In fresh interpreters `python prog.py` / `python -m prog` are compared with `monkeytype run prog.py` / `monkeytype run -m prog` (stdout, exit status; the program looks at sys.argv, __main__ and pickles its own class). The differential programs also print a digest of os.environ (own and a child's), cwd and umask. Faulted scenarios also run with warnings as errors; the code filter itself is a fault site.",
         note="Observable behaviour = hook journal + results + exceptions + stdout; fault sites are the logger's log/flush calls.",
         ref="DESIGN.md section 4 C03",
     ),
